@@ -36,7 +36,7 @@ func (o Op) Label() string {
 			}
 			parts[i] = fmt.Sprintf("%s/a%d", k, o.Attrs[i])
 		}
-		return fmt.Sprintf("pub(%s,%s)", o.Topic, strings.Join(parts, "+"))
+		return fmt.Sprintf("pub%s(%s,%s)", o.Tgt, o.Topic, strings.Join(parts, "+"))
 	case "pull":
 		return fmt.Sprintf("pull%s(%s,%d)", o.Tgt, o.Sub, o.Max)
 	case "ack", "nack", "acknack":
